@@ -137,7 +137,7 @@ def nm2(prog, rr):
 
 
 # --------------------------------------------------------------------------------------- LW11
-@rule("LW11", ["C02", "C04", "C01"], "the constraint copier copies every expression operand and fills the matching branch", engine="DF", floor=8)
+@rule("LW11", ["C02", "C04", "C01", "C15"], "the constraint copier copies every expression operand and fills the matching branch", engine="DF", floor=8)
 def lw11(prog, rr):
     cb = prog.cls("ConstraintCopyBuilder")
     leaf_passthrough = {"visit_expr_fieldref", "visit_expr_literal", "visit_expr_indexed_fieldref"}
